@@ -118,7 +118,7 @@ def main() -> None:
         if not os.path.isdir(d) or name.startswith("."):
             continue
         readme = ""
-        for fn in ("README.md", "readme.md"):
+        for fn in ("README.md", "readme.md", "NOTES.md"):
             if os.path.exists(os.path.join(d, fn)):
                 readme = open(os.path.join(d, fn), encoding="utf-8", errors="replace").read()
                 break
